@@ -16,6 +16,13 @@ Definition zmem (k : Z) (m : list (Z * str)) : bool := match zfind k m with Some
 Definition zget (k : Z) (m : list (Z * str)) : str := match zfind k m with Some v => v | None => [] end.   (* KeyError when absent *)
 Fixpoint zset (k : Z) (v : str) (m : list (Z * str)) : list (Z * str) :=
   match m with [] => [(k, v)] | (k', v') :: m' => if Z.eqb k k' then (k, v) :: m' else (k', v') :: zset k v m' end.
+(* ... with integer keys and any values (d[k] = v), and equality of optional names *)
+Fixpoint dset {V} (k : Z) (v : V) (m : list (Z * V)) : list (Z * V) :=
+  match m with [] => [(k, v)] | (k', v') :: m' => if Z.eqb k k' then (k, v) :: m' else (k', v') :: dset k v m' end.
+Definition ostr_eqb (a b : option str) : bool :=
+  match a, b with Some x, Some y => str_eqb x y | None, None => true | _, _ => false end.
+Definition imp_untranslated_uvs (what : string) (allGlyphs_ : list str) (mapping_ : list (Z * str)) (uvsMapping_ : list (Z * list (Z * str)))
+  : list (Z * list (Z * option str)). Proof. exact []. Qed.
 
 Definition tr_glyph_order_loop1 (st : list str * list str) (name_ : str) : list str * list str :=
   let '(names_, order_) := st in (if (negb (mem name_ names_)) then (names_, order_) else let names_ := (remove_str name_ names_) in let order_ := (order_ ++ [name_]) in (names_, order_)).
@@ -28,3 +35,15 @@ Definition tr_u2g_loop2 (st : list (Z * str) * option (str * Z * str)) (elem_ : 
   let '(mapping_, err_) := st in let '(glyphName_, unicodes_) := elem_ in match err_ with Some _ => (mapping_, err_) | None => let '(mapping_, err_) := fold_left (tr_u2g_loop1 glyphName_ unicodes_) unicodes_ (mapping_, err_) in (mapping_, err_) end.
 Definition tr_u2g (glyphOrder_ : list (str * list Z)) : list (Z * str) + (str * Z * str) :=
   let mapping_ := [] in let err_ := (None : option (str * Z * str)) in let '(mapping_, err_) := (let '(mapping_, err_) := fold_left (tr_u2g_loop2) glyphOrder_ (mapping_, err_) in (mapping_, err_)) in match err_ with Some e_ => inr e_ | None => inl mapping_ end.
+
+Definition tr_uvs_inner (allGlyphs_ : list str) (mapping_ : list (Z * str)) (uvsList_ : list (Z * option str)) (e_ : Z * str)
+  : list (Z * option str) :=
+  let '(hexvalue_, glyphName_) := e_ in (if negb (mem glyphName_ allGlyphs_) then uvsList_ else let uvsList_ := (if (ostr_eqb (Some glyphName_) (zfind hexvalue_ mapping_)) then uvsList_ ++ [(hexvalue_, None)] else uvsList_ ++ [(hexvalue_, (Some glyphName_))]) in uvsList_).
+Definition tr_uvs_outer (allGlyphs_ : list str) (mapping_ : list (Z * str)) (uvsDict_ : list (Z * list (Z * option str)))
+  (e_ : Z * list (Z * str)) : list (Z * list (Z * option str)) :=
+  let '(hexvs_, glyphMapping_) := e_ in
+  let uvsList_ := fold_left (tr_uvs_inner allGlyphs_ mapping_) glyphMapping_ [] in
+  match uvsList_ with [] => uvsDict_ | _ => dset hexvs_ uvsList_ uvsDict_ end.
+Definition tr_uvs (allGlyphs_ : list str) (mapping_ : list (Z * str)) (uvsMapping_ : list (Z * list (Z * str)))
+  : list (Z * list (Z * option str)) :=
+  fold_left (tr_uvs_outer allGlyphs_ mapping_) uvsMapping_ [].
